@@ -385,3 +385,11 @@ def _svd(a, full_matrices=True, **kw):
     from contracts.c13_statistics import svd_stub
 
     return svd_stub(a, full_matrices=full_matrices, **kw)
+
+
+from contracts.common import FunctionAxiomsBase  # noqa: E402
+
+
+class FunctionAxioms(FunctionAxiomsBase):
+    abstract = False
+    prop = "C11"
